@@ -174,6 +174,9 @@ func strip(v ssa.Value) ssa.Value {
 		case *ssa.ChangeType:
 			v = x.X
 		case *ssa.Convert:
+			if !valuePreservingConvert(x) {
+				return v
+			}
 			v = x.X
 		case *ssa.ChangeInterface:
 			v = x.X
@@ -1205,4 +1208,59 @@ func fnBase(f *ssa.Function) string {
 		n = n[:i]
 	}
 	return n
+}
+
+// intBits: width of int/uint/uintptr in the configuration under analysis.
+var intBits = 64
+
+// valuePreservingConvert: integer-to-integer conversions are stripped by
+// strip()/canon() only when every value keeps its numeric value (widening, or
+// same width and same signedness). int32(x uint32), int(x uint64), uint8(x int)
+// are NOT value-preserving: they are kept as opaque values. Conversions that
+// do not involve two integer types (string/[]byte, named types, floats) are
+// identities for the purposes of the rules and are stripped as before.
+func valuePreservingConvert(c *ssa.Convert) bool {
+	from, ok1 := c.X.Type().Underlying().(*types.Basic)
+	to, ok2 := c.Type().Underlying().(*types.Basic)
+	if !ok1 || !ok2 || from.Info()&types.IsInteger == 0 || to.Info()&types.IsInteger == 0 {
+		return true
+	}
+	width := func(b *types.Basic) int {
+		switch b.Kind() {
+		case types.Int8, types.Uint8:
+			return 8
+		case types.Int16, types.Uint16:
+			return 16
+		case types.Int32, types.Uint32:
+			return 32
+		case types.Int64, types.Uint64:
+			return 64
+		case types.UntypedInt, types.UntypedRune:
+			return 64
+		}
+		return intBits
+	}
+	fu, tu := from.Info()&types.IsUnsigned != 0, to.Info()&types.IsUnsigned != 0
+	fw, tw := width(from), width(to)
+	switch {
+	case fu == tu:
+		return tw >= fw
+	case fu && !tu:
+		return tw > fw
+	default: // signed to unsigned: negative values change
+		return false
+	}
+}
+
+// stripAllConv removes every conversion, including narrowing integer ones
+// (for rules that identify WHICH value is used, not its numeric range).
+func stripAllConv(v ssa.Value) ssa.Value {
+	for {
+		v = canon(v)
+		c, ok := v.(*ssa.Convert)
+		if !ok {
+			return v
+		}
+		v = c.X
+	}
 }
